@@ -145,7 +145,8 @@ def mkPerson (string first middle prelast last lineage : Str) : Except NameErr (
 
 def Person.bibtexFirst (p : Person) : List Str := p.first ++ p.middle
 
-/-- `Person.__str__`: "von Last, Jr, First" with empty groups dropped. -/
+/-- `Person.__str__` before the repair C02-1 adds the trailing comma that keeps an empty First part
+(`BibWrite.personStr` is the complete `__str__`): "von Last, Jr, First" with empty groups dropped. -/
 def Person.toStr (p : Person) : Str :=
   let vonLast := joinWith [' '] (p.prelast ++ p.last)
   let jr := joinWith [' '] p.lineage
